@@ -67,6 +67,19 @@ Fixpoint spec_run (rows : list (option A)) (pos : nat) (ops : list op) : list ou
     end
   end.
 
+(** position (number of rows consumed since the last re-creation) after a history *)
+Fixpoint spec_pos (rows : list (option A)) (pos : nat) (ops : list op) : nat :=
+  match ops with
+  | [] => pos
+  | o :: ops' =>
+    let rem := length rows - pos in
+    match o with
+    | Read k | ReadNoDef k | Skip k => spec_pos rows (pos + take k rem) ops'
+    | HasNext | Remaining => spec_pos rows pos ops'
+    | Reopen => spec_pos rows 0 ops'
+    end
+  end.
+
 (** what a history over a chunk with logical content [rows] must deliver *)
 Definition spec_outputs (ops : list op) (rows : list (option A)) : list out := spec_run rows 0 ops.
 
